@@ -325,6 +325,60 @@ def decimal_sum_game(rng):
     return finish(rewards, players, xtl, [win], {"family": "decimal_sum"})
 
 
+def corridor_choice_game(rng, k=None):
+    """a player at state 0 chooses between a CERTAIN corridor of k probabilistic states (indices
+    increasing towards the goal: one more state settles per sweep) and a coin flip"""
+    k = k or rng.choice([33, 45, 60])
+    kind = rng.choice([P1, P2])
+    coin, lose, win = k + 1, k + 2, k + 3
+    players = [kind] + [PR] * k + [PR, PR, PR]
+    rewards = [0] * (k + 4)
+    row0 = [("a", 1), ("b", coin)]
+    if rng.random() < 0.5:
+        row0.reverse()
+    xtl = [row0] + [[(Fr(1), i + 1 if i < k else win)] for i in range(1, k + 1)] + \
+        [[(Fr(1, 2), win), (Fr(1, 2), lose)], [(Fr(1), lose)], [(Fr(1), win)]]
+    return finish(rewards, players, xtl, [win], {"family": "corridor_choice", "k": k})
+
+
+def close_values_game(rng):
+    """acyclic: successors whose exact values differ by a few 1e-6 (more than the solver's tolerance,
+    less than ten times it) — they must NOT be reported as tied"""
+    kind = rng.choice([P1, P2])
+    d = rng.choice([Fr(3, 10 ** 6), Fr(4, 10 ** 6), Fr(8, 10 ** 6)])
+    base = rng.choice([Fr(1, 2), Fr(1, 4), Fr(3, 4)])
+    lose, win = 4, 5
+    players = [kind, PR, PR, PR, PR, PR]
+    rows = [[(base, win), (1 - base, lose)], [(base + d, win), (1 - base - d, lose)], [(base, win), (1 - base, lose)]]
+    order = [1, 2, 3]
+    rng.shuffle(order)
+    xtl = [[(ACTIONS[j], s) for j, s in enumerate(order)]] + rows + [[(Fr(1), lose)], [(Fr(1), win)]]
+    return finish([0] * 6, players, xtl, [win], {"family": "close_values"})
+
+
+def with_empty_action(g, rng):
+    """the same game with one action name replaced by the empty string (a legal str)"""
+    names = sorted({a for pl, row in zip(g["players"], g["transition_list"]) if pl != PR for a, _ in row})
+    if not names:
+        return g
+    victim = rng.choice(names)
+    xt = [[(("" if (isinstance(l, str) and l == victim) else l), t_) for l, t_ in row] for row in exact_tl(g)]
+    return finish(g["rewards"], g["players"], xt, g["final_states"], dict(g.get("_meta", {}), empty_action=True))
+
+
+def all_dead_game(rng):
+    """no non-final state can reach the final state (the backward search returns nothing)"""
+    n = rng.randint(2, 5)
+    lose, win = n, n + 1
+    players = [rng.choice([P1, P2, PR]) for _ in range(n)] + [PR, PR]
+    xtl = []
+    for i in range(n):
+        t1, t2 = rng.choice([j for j in range(n + 1)]), lose
+        xtl.append([(Fr(1, 2), t1), (Fr(1, 2), t2)] if players[i] == PR else [("a", t1), ("b", t2)])
+    xtl += [[(Fr(1), lose)], [(Fr(1), win)]]
+    return finish([0] * (n + 2), players, xtl, [win], {"family": "all_dead"})
+
+
 def big_dead_corridor(n=2100, rng=None):
     """a long corridor solved in ONE sweep (state i leads to i-1, state 1 to the winning state), every
     state with an extra branch into the dead sink: Player-1 states (a 'bad' action) and probabilistic
@@ -340,7 +394,7 @@ def big_dead_corridor(n=2100, rng=None):
             players.append(PR)
             rewards.append(0)
             xtl.append([(Fr(1), nxt)])
-        elif i % 2 == 0:
+        elif i % 2 == 0 and i % 500 != 0:
             players.append(P1)
             rewards.append(i % 3)
             row = [("go", nxt), ("bad", lose)]
@@ -365,7 +419,9 @@ def cascade_game(k=1050):
     lose, win = k + 1, k + 2
     players = [P1] + [PR] * k + [PR, PR]
     rewards = [0] + [1] * k + [0, 0]
-    xtl = [[("a", win), ("b", 1)]] + [[(Fr(1), i + 1)] for i in range(1, k)] + [[(Fr(1), lose)]] + \
+    # the chain reaches the goal with probability 1/2 (< 1 = value of action 'a'), so its states are
+    # alive but unreachable once 'b' is dropped
+    xtl = [[("a", win), ("b", 1)]] + [[(Fr(1), i + 1)] for i in range(1, k)] + [[(Fr(1, 2), win), (Fr(1, 2), lose)]] + \
         [[(Fr(1), lose)], [(Fr(1), win)]]
     return finish(rewards, players, xtl, [win], {"family": "cascade", "k": k})
 
